@@ -39,7 +39,7 @@ def gen(rng, tier):
         focus["task_rules"] = True
     if rng.random() < (0.7 if focus["nested"] else 0.4):
         focus["tight"] = True
-    return C.maybe_history(rng, C.forward_spec(rng, tier, focus), 0.3)
+    return C.maybe_from_json(rng, C.maybe_history(rng, C.forward_spec(rng, tier, focus), 0.3))
 
 
 def extra_candidates(spec):
